@@ -20,10 +20,12 @@ def run(ctx):
     ctx.assume(*_pipe.ASSUME)
     ctx.not_claimed(_pipe.OUTSIDE + '; trees obtained through diff-cache histories (see C04)')
     C = []
-    ks = [35, 14, 24] if q else [35, 14, 24, 0, 3, 6, 11, 17, 18, 21]
+    ks = [35, 14, 24] if q else [35, 14, 24, 0, 11]
     if not q:
-        C += PC.text_holes(ctx, own, ks, clauses='c20', timeout=600 if q else 2400)
+        C += PC.text_holes(ctx, own, ks, clauses='c20', timeout=600 if q else 1200)
     C += PC.spell_holes(ctx, own, [0, 17] if q else range(len(P.SPELL)), clauses='c20', alpha='lOIaifn_')
-    C += PC.label_holes(ctx, own, [P.skel('def a(): pass'), P.skel('\ufeffx'), P.skel('a = 1\nx = ['), P.skel('x = 12345')] if q else range(len(P.SKELS)), vis=(4,) if q else (0, 4, 8),
-                        clauses=PC.SHARED + ',c13,c19,c20,c20t')
+    mine = [P.skel('def a(): pass'), P.skel('\ufeffx'), P.skel('a = 1\nx = ['), P.skel('x = 12345')]
+    C += PC.label_holes(ctx, own, mine if q else mine + [0, 3, 7, 10], vis=(4,), clauses=PC.SHARED + ',c13,c19,c20,c20t')
+    if not q:
+        C += PC.label_holes(ctx, own, [k for k in range(len(P.SKELS)) if k not in mine + [0, 3, 7, 10]], vis=(0, 4, 8))
     xh.run_conditions(ctx, C)
